@@ -162,6 +162,11 @@ def check_summary(text: str, message: str) -> str | None:
 	special = {'\n', '\\EOF', '\\INDENT', '\\DEDENT', '\\OP_UNARY_MINUS'}
 	if tok not in special and tok not in text:
 		return f'named token {tok!r} does not occur in the input'
+	if tok and set(tok) == {'\n'}:
+		# a line break begins right behind the last character of the line it ends
+		col = len(mark) - len(mark.lstrip(' ')) - (len(f' {" " * len(line_no)}      '))
+		if mark.strip(' ') and col != len(quoted):
+			return f'the named token is a line break, the carets begin at column {col} of {quoted!r} (line break at column {len(quoted)})'
 	if tok not in special and '\n' not in tok:
 		carets = mark.strip(' ')
 		col = len(mark) - len(mark.lstrip(' ')) - (len(f' {" " * len(line_no)}      '))
